@@ -3,7 +3,7 @@
    specification (headers, versions, streams) in Proofs/XfrSpec.v. *)
 From DV Require Import Base.Prelude Model.XfrM Proofs.XfrSpec.
 From DV Require Proofs.XfrZone Proofs.XfrDiff.
-From DV Require Proofs.XfrSafety Proofs.XfrBasic Proofs.XfrIxfr Proofs.XfrAxfr Proofs.XfrFault Proofs.XfrOrder Proofs.XfrRefresh Proofs.XfrGlue Proofs.XfrTsig Proofs.XfrSections Proofs.XfrGroup Proofs.XfrSoaFaults Proofs.XfrTsigLink Proofs.XfrAddStart.
+From DV Require Proofs.XfrSafety Proofs.XfrBasic Proofs.XfrIxfr Proofs.XfrAxfr Proofs.XfrFault Proofs.XfrOrder Proofs.XfrRefresh Proofs.XfrGlue Proofs.XfrTsig Proofs.XfrSections Proofs.XfrGroup Proofs.XfrSoaFaults Proofs.XfrTsigLink Proofs.XfrAddStart Proofs.XfrBody.
 From DV Require Model.TsigM.
 From Coq Require Import Sorting.Permutation.
 
@@ -293,6 +293,35 @@ Theorem ixfr_altered_addition : forall fin pre c A1 a a' A2 z0 z1 z2 ser ws1 ws2
     forall k, rkey a <> k -> rkey a' <> k -> look zf2 k = look zf1 k.
 Proof. exact XfrSections.ixfr_altered_addition. Qed.
 Print Assumptions ixfr_altered_addition.
+
+(* the same for full transfers: a response SOA, B, SOA is applied as the set union of the in-zone
+   records of B WHATEVER B is (dropped, altered, repeated records, glue) - also for the AXFR-style
+   answer to an IXFR request *)
+Theorem axfr_body_applied : forall fin B z0 ser ws,
+  ttl_ok (v_ttl fin) -> Forall XfrGlue.okrec B ->
+  chunking tAXFR (soa_rr fin :: B ++ [soa_rr fin]) ws ->
+  exists z' n, inbound_xfr z0 tAXFR ser false ws = (Done z', n)
+               /\ zeq z' (zput soakey (v_ttl fin, [v_soa fin]) (XfrDiff.adds [] (XfrGlue.erase B))).
+Proof. exact XfrBody.axfr_body_applied. Qed.
+Print Assumptions axfr_body_applied.
+
+Theorem axfr_style_body_applied : forall fin r c z0 ser ws,
+  ttl_ok (v_ttl fin) -> XfrGlue.okrec r -> Forall XfrGlue.okrec c ->
+  v_serial fin <> ser -> serial_lt (v_serial fin) ser = false ->
+  chunking tIXFR (soa_rr fin :: (r :: c) ++ [soa_rr fin]) ws ->
+  exists z' n, inbound_xfr z0 tIXFR (Some ser) false ws = (Done z', n)
+               /\ zeq z' (zput soakey (v_ttl fin, [v_soa fin]) (XfrDiff.adds [] (XfrGlue.erase (r :: c)))).
+Proof. exact XfrBody.axfr_style_body_applied. Qed.
+Print Assumptions axfr_style_body_applied.
+
+(* the first record of the response is not the zone's SOA (e.g. the first SOA of an AXFR was dropped) *)
+Theorem first_record_not_soa_rejected : forall z rdt ser udp w ws r0 rest,
+  header_ok rdt w -> w_records w = r0 :: rest -> (rdt = tAXFR /\ udp = false \/ rdt = tIXFR /\ ser <> None) ->
+  (r_name r0 <> origin \/ r_type r0 <> tSOA) ->
+  exists e, (e = eNoAnswer \/ e = eFirstNotSOA) /\
+            inbound_xfr z rdt ser udp (w :: ws) = (Error e z, 0%nat).
+Proof. exact XfrBody.first_record_not_soa_rejected. Qed.
+Print Assumptions first_record_not_soa_rejected.
 
 (* ---- SOA records out of place (dropped, duplicated, swapped SOAs).  After any number of well-formed
         sections pre and records P taken as additions, an SOA b whose serial is not the current one is
